@@ -66,7 +66,21 @@ func padded(x *big.Int) []byte { return ref.LeftPad(x.Bytes(), 256) }
 
 // answer calls the code under test.
 func answer(c Case, pw string, B []byte, a []byte) (A, M1 []byte, empty bool, err error) {
+	// the server's parameters as a caller holds them after parsing one message: adjacent windows of one buffer, each
+	// with the next one in its spare capacity. Nothing in the buffer may change.
 	pB := padded(ref.DHPrime)
+	blob := append(append(append(append(append([]byte{}, c.Salt1...), c.Salt2...), pB...), B...), bytes.Repeat([]byte{0xa5}, 96)...)
+	orig := append([]byte{}, blob...)
+	o1 := len(c.Salt1)
+	o2 := o1 + len(c.Salt2)
+	o3 := o2 + len(pB)
+	o4 := o3 + len(B)
+	c.Salt1, c.Salt2, pB, B = blob[:o1], blob[o1:o2], blob[o2:o3], blob[o3:o4]
+	defer func() {
+		if err == nil && !bytes.Equal(blob, orig) {
+			err = fmt.Errorf("the caller's parameters (salt1 | salt2 | p | B in one buffer) were modified at offset %d of %d", firstDiffAt(blob, orig), len(blob))
+		}
+	}()
 	if c.Public {
 		ap := &telegram.AccountPassword{
 			CurrentAlgo: &telegram.PasswordKdfAlgoSHA256SHA256PBKDF2HMACSHA512iter100000SHA256ModPow{Salt1: c.Salt1, Salt2: c.Salt2, G: int32(c.G), P: pB},
@@ -96,6 +110,15 @@ func answer(c Case, pw string, B []byte, a []byte) (A, M1 []byte, empty bool, er
 		return nil, nil, true, nil
 	}
 	return res.GA, res.M1, false, nil
+}
+
+func firstDiffAt(a, b []byte) int {
+	for i := range a {
+		if i >= len(b) || a[i] != b[i] {
+			return i
+		}
+	}
+	return len(a)
 }
 
 // prepare forces the requested corner by walking exponents; returns the server and the client secret to use.
